@@ -3,7 +3,7 @@ PROPS = {}
 
 _common = dict(
     driver="service",
-    coq_targets=["Service/Check.vo", "Service/Proofs.vo", "Service/ProofsHist.vo", "Service/ProofsEscrow.vo"],
+    coq_targets=["Service/Check.vo", "Service/Proofs.vo", "Service/ProofsHist.vo", "Service/ProofsEscrow.vo", "Service/ProofsSched.vo", "Service/ProofsBatch.vo", "Service/ProofsLiab.vo"],
     check_module="Service.Check",
     streams=[dict(name="main", quick=128, thorough=4000)],
     coq_shard=12,
